@@ -568,6 +568,7 @@ Definition base_at (args : list val) : M val :=
       match as_arr W st ix with
       | Some (_, i :: _) => match as_str W st i with
                             | Some (_, n) => match find_prop W st self n with
+                                             | Some (VErrObj k m) => raise k m
                                              | Some v => ret v
                                              | None => ret vNil end
                             | None => ret vNil end
